@@ -295,3 +295,70 @@ pub fn path_segments(p: &str) -> J {
     }
     J::Array(p.split('/').skip(1).map(cps).collect())
 }
+
+/// A value as the implementation *reports* it (structured report / record tree): regex
+/// literals are printed as "/re/" strings and ranges as "[lo,hi)" strings.  Documents of the
+/// generators never contain such strings, so they are mapped back to the abstract regex /
+/// range values.
+pub fn from_reported_json(j: &J) -> Option<J> {
+    if let J::String(s) = j {
+        if s.len() >= 2 && s.starts_with('/') && s.ends_with('/') {
+            let mut body: &str = &s[1..s.len() - 1];
+            let st = body.starts_with('^');
+            if st {
+                body = &body[1..];
+            }
+            let mut en = false;
+            if body.ends_with('$') && !body.ends_with("\\$") {
+                en = true;
+                body = &body[..body.len() - 1];
+            }
+            let mut lit = String::new();
+            let mut esc = false;
+            for c in body.chars() {
+                if esc {
+                    lit.push(c);
+                    esc = false;
+                } else if c == '\\' {
+                    esc = true;
+                } else {
+                    lit.push(c);
+                }
+            }
+            return Some(json!({"t":"re","s":st,"e":en,"v":cps(&lit)}));
+        }
+        let b = s.as_bytes();
+        if s.len() >= 5 && (b[0] == b'[' || b[0] == b'(') && (b[s.len() - 1] == b']' || b[s.len() - 1] == b')') {
+            let inner = &s[1..s.len() - 1];
+            let parts: Vec<&str> = inner.split(',').collect();
+            if parts.len() == 2 {
+                let inc = (if b[0] == b'[' { 1 } else { 0 }) + (if b[s.len() - 1] == b']' { 2 } else { 0 });
+                if let (Ok(lo), Ok(hi)) = (parts[0].parse::<i64>(), parts[1].parse::<i64>()) {
+                    return Some(json!({"t":"rint","lo":unembed_int(lo)?,"hi":unembed_int(hi)?,"inc":inc}));
+                }
+                if let (Ok(lo), Ok(hi)) = (parts[0].parse::<f64>(), parts[1].parse::<f64>()) {
+                    return Some(json!({"t":"rflt","lo":flt_of_f64(lo)?,"hi":flt_of_f64(hi)?,"inc":inc}));
+                }
+            }
+        }
+    }
+    match j {
+        J::Array(a) => {
+            let mut xs = Vec::new();
+            for e in a {
+                xs.push(from_reported_json(e)?);
+            }
+            Some(vlist(xs))
+        }
+        J::Object(m) => {
+            let mut k = Vec::new();
+            let mut v = Vec::new();
+            for (kk, vv) in m {
+                k.push(cps(kk));
+                v.push(from_reported_json(vv)?);
+            }
+            Some(json!({"t":"map","k":k,"v":v}))
+        }
+        other => from_json(other),
+    }
+}
